@@ -235,5 +235,5 @@ MANIFEST = {
             "than the current version; enumerated rejected pairings, each demonstrated non-monotone.",
     "note": "Rendering is taken from bumpver's cal_info + format_version; dates outside 2001..2099 are not covered "
             "(as in the property); bump level is sampled, not exhaustive.",
-    "technique": "exhaustive enumeration of a finite domain + property-based testing (Hypothesis) with a monotonicity (metamorphic) oracle",
+    "technique": "exhaustive enumeration of a finite domain + property-based testing (Hypothesis) with a monotonicity (metamorphic) oracle; plus coverage-guided fuzzing (atheris/libFuzzer) of the same byte decoder and oracle",
 }
